@@ -147,6 +147,10 @@ def run(ctx, rep):
     rep.rule('R03.i', 'a directory is created (removed) under the existence test of the same path, and what purge deletes with delete_consumer_offsets it re-creates (the partition loader fails on a missing offsets directory and the topic loader only logs a failed partition)', floor=14, analysis='A9')
     dir_pairing(ctx, rep, 'R03.i')
 
+    # ------------------------------------------------------------ R03.j the storage lifecycle keeps its steps
+    rep.rule('R03.j', 'the storage lifecycle keeps its steps: load / save / persist / delete / shutdown of segments, partitions, topics, streams and of the system still call each of their confirmed collaborators (readers and writers opened, indexes loaded, consumer offsets and message ids loaded, missing entities re-persisted, buffers flushed at shutdown)', floor=45, analysis='A1 required callees')
+    sf.lifecycle_steps(ctx, rep, 'R03.j')
+
 
 def dir_pairing(ctx, rep, rid):
     import forms as forms_
